@@ -180,6 +180,7 @@ def check(prog, run):
 
     from . import c04
     c04.check_seen_scope(prog, run, "D5")
+    check_descent(prog, run, "D8")
 
     # ---- D6 nothing on the measuring path remembers an earlier answer
     from .. import nomemo
@@ -204,3 +205,59 @@ def check(prog, run):
             if isinstance(n, ast.Attribute) and n.attr in ("query_type", "mutation_type", "subscription_type") and f.module.name.endswith("max_depth"):
                 run.report(r, "%s:%s:assumes-root(%s)" % (f.module.name, f.qualname, n.attr), f.where(n),
                            "the depth rule consults schema.%s: the measurement depends on an assumed root type" % n.attr)
+
+
+def check_descent(prog, run, rule_id):
+    """Every selected child is descended into."""
+    from .. import boolx
+    r = run.rule(rule_id, "selected_fields, per response key of the collected children: with no depth limit (`maxdepth` falsy) every "
+                          "execution of the loop body reaches the recursive call for that key's fields — nothing that depends on "
+                          "what has been listed already (a duplicate path, a pattern miss) may skip the descent, or the depth under "
+                          "a second alias of a field is never measured", 1)
+    sf = prog.get_func(CF, "selected_fields")
+    run.looked_at(sf)
+    loops = [n for n in sf.node.body if isinstance(n, ast.For)]
+    if len(loops) != 1:
+        raise AnalysisError("C19.%s: per-key loop of selected_fields not found" % rule_id)
+    depth_param = next((a.arg for a in sf.node.args.args + sf.node.args.kwonlyargs if "depth" in a.arg), None)
+    if depth_param is None:
+        raise AnalysisError("C19.%s: depth parameter of selected_fields not found" % rule_id)
+
+    def decide(t):
+        if t == depth_param:
+            return False          # no limit
+        return None
+    def at_least_once(stmts):
+        """inner `for` loops read as one iteration (groups of fields are never empty): header expression, then the body"""
+        out = []
+        for st in stmts:
+            if isinstance(st, (ast.For, ast.AsyncFor)):
+                out.append(ast.copy_location(ast.Expr(value=st.iter), st))
+                out.extend(at_least_once(st.body))
+            elif isinstance(st, ast.If):
+                out.append(ast.copy_location(ast.If(test=st.test, body=at_least_once(st.body) or [ast.Pass()], orelse=at_least_once(st.orelse)), st))
+            else:
+                out.append(st)
+        return out
+    body = boolx.body_function(at_least_once(loops[0].body))
+    ast.fix_missing_locations(body)
+    try:
+        _ev, exits = boolx.walk_under(body, decide)
+    except ValueError as e:
+        raise AnalysisError("C19.%s: %s" % (rule_id, e))
+    n_ok = 0
+    for kind, st, env in exits:
+        if kind == "raise":
+            continue
+        rec = [c for c in env.get(boolx.CALLS, ()) if isinstance(c.func, ast.Name) and c.func.id == sf.name]
+        if rec:
+            n_ok += 1
+            continue
+        cond = ", ".join("%s=%s" % kv for kv in sorted(env.items()) if kv[0] not in boolx.META)
+        run.report(r, "%s:selected_fields:descent-skipped" % CF, sf.where(st) if st is not None else sf.where(loops[0]),
+                   "an execution of the per-key loop body of selected_fields ends (%s) without the recursive call although no depth "
+                   "limit applies (when %s): the sub-selection of that field is not measured" % (kind, cond or "always"))
+        break
+    r.instance("per-key loop body: %d executions reach the recursive call" % n_ok)
+    if not n_ok:
+        raise AnalysisError("C19.%s: no execution of the loop body reaches the recursive call" % rule_id)
